@@ -43,4 +43,32 @@ def lift2 (f : Rat → Rat → Rat) : Option Rat → Option Rat → Option Rat
   | some a, some b => some (f a b)
   | _, _ => none
 
+/-! ### tea-core/src/vec_core/iter_traits.rs (`IterBasic`) and the std iteration calls of agg.rs -/
+
+/-- `vapply_n(f)`: `f(v.unwrap())` on every non-null element, in order; returns their number.
+The captured variables `f` mutates are the threaded state. -/
+def vapplyN {σ : Type} (f : σ → Rat → σ) (init : σ) (xs : List (Option Rat)) : σ × Nat :=
+  xs.foldl (fun p v => match v with
+    | some x => (f p.1 x, p.2 + 1)
+    | none => p) (init, 0)
+
+/-- `vfold_n(init, f)`: `(n, acc)` -/
+def vfoldN {σ : Type} (f : σ → Rat → σ) (init : σ) (xs : List (Option Rat)) : Nat × σ :=
+  xs.foldl (fun p v => match v with
+    | some x => (p.1 + 1, f p.2 x)
+    | none => p) (0, init)
+
+/-- `vfold(init, f)` -/
+def vfold {σ : Type} (f : σ → Rat → σ) (init : σ) (xs : List (Option Rat)) : σ :=
+  xs.foldl (fun acc v => match v with
+    | some x => f acc x
+    | none => acc) init
+
+/-- `Number::max_with`: `if other > self { other } else { self }` -/
+def maxWith (a b : Rat) : Rat := if b > a then b else a
+/-- `Number::min_with`: `if other < self { other } else { self }` -/
+def minWith (a b : Rat) : Rat := if b < a then b else a
+def maxWithNat (a b : Nat) : Nat := if b > a then b else a
+def minWithNat (a b : Nat) : Nat := if b < a then b else a
+
 end Tv.Gen
